@@ -17,6 +17,7 @@ import (
 	"strconv"
 	"strings"
 	"syscall"
+	"time"
 
 	"github.com/DemoHn/Zn/pkg/common"
 	zerr "github.com/DemoHn/Zn/pkg/error"
@@ -992,10 +993,49 @@ func doReadAll(req *Req) (resp Resp) {
 			return Resp{Kind: "error", Err: errInfoLight(err)}
 		}
 		stream = fs
+	case "fifo", "fifo-exec":
+		// the file is a named pipe whose writer delivers the bytes in parts, pausing in between,
+		// so that FileStream sees short reads exactly at the given offsets
+		p := filepath.Join(tmpRoot, fmt.Sprintf("readall-%d.fifo.zn", os.Getpid()))
+		os.Remove(p)
+		if err := syscall.Mkfifo(p, 0o600); err != nil {
+			return Resp{Kind: "panic", Panic: "mkfifo: " + err.Error()}
+		}
+		defer os.Remove(p)
+		go func() {
+			f, err := os.OpenFile(p, os.O_WRONLY, 0)
+			if err != nil {
+				return
+			}
+			defer f.Close()
+			prev := 0
+			for _, cut := range req.Cuts {
+				if cut > prev && cut <= len(data) {
+					f.Write(data[prev:cut])
+					prev = cut
+					time.Sleep(12 * time.Millisecond)
+				}
+			}
+			f.Write(data[prev:])
+		}()
+		if req.Mode == "fifo-exec" {
+			resetCapture()
+			v, err := exec.NewInterpreter("verif").SetExternalLibs(libs()).LoadFile(p).Execute(r.ElementMap{})
+			if err != nil {
+				return Resp{Kind: "error", Err: errInfo(err), Display: readCapture()}
+			}
+			val := toVal(v, 0)
+			return Resp{Kind: "value", Val: &val, Display: readCapture()}
+		}
+		fs, err := zio.NewFileStream(p)
+		if err != nil {
+			return Resp{Kind: "error", Err: errInfoLight(err)}
+		}
+		stream = fs
 	default:
 		stream = zio.NewByteStream(data)
 	}
-	if req.Mode == "file" || req.Mode == "byte" {
+	if req.Mode == "file" || req.Mode == "byte" || req.Mode == "fifo" {
 		rs, err := stream.ReadAll()
 		if err != nil {
 			return Resp{Kind: "error", Err: errInfoLight(err)}
